@@ -825,6 +825,11 @@ class C15(fw.Prop):
                       ["add", ["maketuple"], None, [[0, 0]]]]},
             {"tys": ["Q"], "track": True, "alias": ["meta", "again"],
              "prog": [["add", c, {"name": [1, {"a": None}]}, [0]], ["add", c, {"name": [1, {"a": None}]}, [0]]]},
+            # second pass: the same index / wire several times among the outputs (copyable values), mixed with wires
+            {"tys": ["B", "B"], "track": True, "prog": [["set_indexed_outputs", [0, 0, [0, 1], 1, [0, 0]]]]},
+            {"tys": ["B", "Q"], "track": True,
+             "prog": [["add", ["custom", 1, 2, "m"], None, [1]], ["track_wire", [2, 1]],
+                      ["set_indexed_outputs", [2, 1, [2, 1], 0, 2]]]},
             {"tys": ["Q", "B"], "track": False, "alias": ["iter", "again"],
              "prog": [["track_wires", [[0, 1], [0, 0]]], ["add", c, None, [1]], ["track_wires", []], ["set_tracked_outputs"]]},
         ]
@@ -942,27 +947,12 @@ class C15(fw.Prop):
             out.append(c)
         return out
 
-    def extra(self, ctx, tier):
-        """C15 x C01: the premises (tprem) and the conclusion against the real TrackedDfg (ttie, tvalid) of
-        C15_tracked_programs_valid on the tracked-builder programs of C01's generator."""
-        import random
-        import progs
+    def _composition(self, ctx, sample, tag):
+        """-> (findings [(kind, description, signature, seed, program, c15 program, message)], statistics) of the
+        premises (tprem, ttwf) and of the conclusion against the real TrackedDfg (ttie, tvalid) on a sample"""
         from props import c01
-        out = []
-        ok, log = fw.coq_build(["run/C15ValidRun.vo"])
-        if not ok:
-            return [("composition-run-file", "coq/run/C15ValidRun.v does not build", {"log": log[-1500:]})]
-        bad = fw.forbidden_gate(fw.coq_closure("run/C15ValidRun.v"))
-        if bad:
-            return [("composition-run-file", "forbidden construct in the closure of run/C15ValidRun.v", {"bad": bad[:5]})]
-        rng = random.Random(ctx.seed * 7907 + 15)
-        n = 150 if tier == "quick" else 1500
-        progs_ = [("named:" + k, v) for k, v in sorted(c01.NAMED.items()) if v.get("root") == "tdfg"]
-        for _ in range(n):
-            seed = rng.randrange(1 << 30)
-            progs_.append((seed, progs.gen_tracked_program(random.Random(seed))))
-        lits, meta, outside, raised = [], [], 0, 0
-        for seed, p in progs_:
+        found, lits, meta, outside, raised = [], [], [], 0, 0
+        for seed, p in sample:
             t = tdfg_to_c15(p)
             if t is None:
                 outside += 1
@@ -971,31 +961,77 @@ class C15(fw.Prop):
                 lits.append(tdfg_literal(self.L, p, t))
             except c01.ConvError:
                 raise
-            except Exception as e:      # the builders raised on a program C01's generator believes well formed
+            except Exception as e:      # a builder call raised on a program C01's generator believes well formed
                 raised += 1
+                found.append(("tracked-builder-raises", "a tracked-builder program of C01's generator (well formed: such "
+                              "programs satisfy the premises on clean code) made a builder call raise " + type(e).__name__,
+                              "composition:raises:" + type(e).__name__, seed, p, t, str(e)[:300]))
                 continue
             meta.append((seed, p, t))
-        st = {"generated": len(progs_), "outside_fragment(load)": outside, "builders_raised": raised, "evaluated": len(lits)}
+        st = {"generated": len(sample), "outside_fragment(load)": outside, "builders_raised": raised, "evaluated": len(lits)}
         if lits:
             res = fw.eval_cases(ctx.work, "run.C15ValidRun", lits, shard=40, checks=("tprem", "ttie", "tvalid", "ttwf"),
-                                tag="tvalid", case_type="tcase")
+                                tag=tag, case_type="tcase")
             st["premises_hold"] = len(lits) - len(res["tprem"])
             st["tracked_level_premise_twf_holds"] = len(lits) - len(res["ttwf"])
-            for i in res["tprem"][:3]:
-                out.append(("premise-not-met", "a tracked-builder program of C01's generator inside the fragment does "
-                            "not satisfy the premises of C15_tracked_programs_valid (the theorem would not speak about it)",
-                            {"failing_input": {"seed": meta[i][0]}, "signature": "composition:premise-not-met",
-                             "program": meta[i][1], "c15_program": meta[i][2]}))
-            for i in res["tvalid"][:3]:
-                out.append(("tracked-document-invalid", "the document a real TrackedDfg serialised is rejected by the "
-                            "validity predicate", {"failing_input": {"seed": meta[i][0]}, "signature": "composition:invalid",
-                                                   "program": meta[i][1], "c15_program": meta[i][2]}))
-            for i in [j for j in res["ttie"] if j not in res["tvalid"]][:3]:
-                out.append(("tracked-document-differs", "the document a real TrackedDfg serialised is not the one C01's "
-                            "builder model produces from the explicit translation / not the tracked model's HUGR",
-                            {"failing_input": {"seed": meta[i][0]}, "signature": "composition:document-differs",
-                             "program": meta[i][1], "c15_program": meta[i][2]}))
-        if len(lits) < len(progs_) // 4:
+            for i in res["tvalid"]:
+                found.append(("tracked-document-invalid", "the document a real TrackedDfg serialised is rejected by the "
+                              "validity predicate", "composition:invalid", *meta[i], ""))
+            for i in [j for j in res["ttie"] if j not in res["tvalid"]]:
+                found.append(("tracked-document-differs", "the document a real TrackedDfg serialised is not the one C01's "
+                              "builder model produces from the explicit translation / not the tracked model's HUGR",
+                              "composition:document-differs", *meta[i], ""))
+            for i in res["tprem"]:
+                found.append(("premise-not-met", "a tracked-builder program of C01's generator inside the fragment does "
+                              "not satisfy the premises of C15_tracked_programs_valid (the theorem would not speak about "
+                              "it)", "composition:premise-not-met", *meta[i], ""))
+            for i in [j for j in res["ttwf"] if j not in res["tprem"]]:
+                found.append(("premise-not-met", "a tracked-builder program of C01's generator inside the fragment is "
+                              "not accepted by the tracked-level premise twf of C15_wellformed_tracked_programs_valid",
+                              "composition:twf-not-met", *meta[i], ""))
+        return found, st
+
+    def extra(self, ctx, tier):
+        """C15 x C01: the premises (tprem, ttwf) and the conclusion against the real TrackedDfg (ttie, tvalid) of
+        C15_tracked_programs_valid / C15_wellformed_tracked_programs_valid on the tracked-builder programs of C01's
+        generator (harness/progs.py), run on the real TrackedDfg through C01's interpreter."""
+        import random
+        import progs
+        from props import c01
+        ok, log = fw.coq_build(["run/C15ValidRun.vo"])
+        if not ok:
+            return [("composition-run-file", "coq/run/C15ValidRun.v does not build", {"log": log[-1500:]})]
+        bad = fw.forbidden_gate(fw.coq_closure("run/C15ValidRun.v"))
+        if bad:
+            return [("composition-run-file", "forbidden construct in the closure of run/C15ValidRun.v", {"bad": bad[:5]})]
+        rng = random.Random(ctx.seed * 7907 + 15)
+        n = 150 if tier == "quick" else 1500
+        sample = [("named:" + k, v) for k, v in sorted(c01.NAMED.items()) if v.get("root") == "tdfg"]
+        for _ in range(n):
+            seed = rng.randrange(1 << 30)
+            sample.append(({"seed": seed}, progs.gen_tracked_program(random.Random(seed))))
+        found, st = self._composition(ctx, sample, "tvalid")
+        if found:
+            # look for smaller programs showing the same kind of failure: the replay should be readable
+            small = []
+            for size in (1, 2, 3):
+                for _ in range(60):
+                    seed = rng.randrange(1 << 30)
+                    small.append(({"seed": seed, "size": size}, progs.gen_tracked_program(random.Random(seed), size=size)))
+            try:
+                found2, _ = self._composition(ctx, small, "tvalid_small")
+            except fw.CoqEvalError:
+                found2 = []
+            found2.sort(key=lambda f: len(f[4]["stmts"]))
+            found = found2 + found
+        out, per_sig = [], {}
+        for kind, desc, sig, seed, p, t, msg in found:
+            if per_sig.get(sig, 0) >= 2:
+                continue
+            per_sig[sig] = per_sig.get(sig, 0) + 1
+            out.append((kind, desc, {"failing_input": seed, "signature": sig, "program": p, "c15_program": t,
+                                     **({"message": msg} if msg else {})}))
+        if st["evaluated"] < st["generated"] // 4:
             out.append(("composition-sample-too-small", "fewer than a quarter of the generated tracked programs are in "
                         "the fragment of C15_tracked_programs_valid", dict(st)))
         ctx.stats["composition_with_C01"] = st
